@@ -99,6 +99,22 @@ pub proof fn lemma_has_err_push(ev: Seq<Event>, e: Event)
     if e is Error { assert(is_error_event(s2[ev.len() as int])); }
     if has_err_seq(s2) { let i = choose|i: int| 0 <= i < s2.len() && is_error_event(#[trigger] s2[i]); if i < ev.len() { assert(is_error_event(ev[i])); } }
 }
+pub proof fn lemma_has_err_update(ev: Seq<Event>, i: int, e: Event)
+    requires 0 <= i < ev.len(), !(ev[i] is Error), !(e is Error),
+    ensures has_err_seq(ev.update(i, e)) == has_err_seq(ev)
+{
+    let s2 = ev.update(i, e);
+    if has_err_seq(ev) { let j = choose|j: int| 0 <= j < ev.len() && is_error_event(#[trigger] ev[j]); assert(is_error_event(s2[j])); }
+    if has_err_seq(s2) { let j = choose|j: int| 0 <= j < s2.len() && is_error_event(#[trigger] s2[j]); assert(is_error_event(ev[j])); }
+}
+pub proof fn lemma_has_err_drop_last(ev: Seq<Event>)
+    requires ev.len() > 0, !(ev.last() is Error),
+    ensures has_err_seq(ev.drop_last()) == has_err_seq(ev)
+{
+    let s2 = ev.drop_last();
+    if has_err_seq(ev) { let j = choose|j: int| 0 <= j < ev.len() && is_error_event(#[trigger] ev[j]); assert(j < s2.len()); assert(is_error_event(s2[j])); }
+    if has_err_seq(s2) { let j = choose|j: int| 0 <= j < s2.len() && is_error_event(#[trigger] s2[j]); assert(is_error_event(ev[j])); }
+}
 impl<'t> Parser<'t> {
     pub open spec fn st(&self) -> PState {
         PState { toks: self.inp.kind@, inp: *self.inp, pos: self.pos as nat }
@@ -107,10 +123,36 @@ impl<'t> Parser<'t> {
     pub open spec fn has_err(&self) -> bool { has_err_seq(self.events@) }
     pub open spec fn wf(&self) -> bool { wf(self.st()) && self.inp.wf() }
 }
+// ---- event slots (marker discipline) -------------------------------------------------------------
+pub open spec fn is_start(e: Event) -> bool { e is Start }
+/// a slot reserved by `Parser::start` and not completed / preceded-into yet
+pub open spec fn is_pending(e: Event) -> bool { e == (Event::Start { kind: SyntaxKind::TOMBSTONE, forward_parent: None }) }
+pub open spec fn start_at(ev: Seq<Event>, i: int) -> bool { 0 <= i < ev.len() && is_start(ev[i]) }
+pub open spec fn pending_at(ev: Seq<Event>, i: int) -> bool { 0 <= i < ev.len() && is_pending(ev[i]) }
+/// the slot of a completed node: a Start event that is not pending any more
+pub open spec fn done_at(ev: Seq<Event>, i: int) -> bool { 0 <= i < ev.len() && is_start(ev[i]) && !is_pending(ev[i]) }
+/// frame of the event list below `lo`: nothing is removed, a Start slot stays a Start slot and stays pending / completed as it was
+pub open spec fn evf(e0: Seq<Event>, e1: Seq<Event>, lo: int) -> bool {
+    &&& 0 <= lo <= e0.len() && lo <= e1.len()
+    &&& forall|i: int| #![trigger e0[i]] #![trigger e1[i]] 0 <= i < lo ==> (is_start(e0[i]) ==> is_start(e1[i]) && is_pending(e0[i]) == is_pending(e1[i]))
+}
+pub broadcast proof fn lemma_evf_trans(e0: Seq<Event>, e1: Seq<Event>, e2: Seq<Event>, lo1: int, lo2: int)
+    requires #[trigger] evf(e0, e1, lo1), #[trigger] evf(e1, e2, lo2),
+    ensures evf(e0, e2, if lo1 <= lo2 { lo1 } else { lo2 })
+{}
+pub broadcast proof fn lemma_evf_weaken(e0: Seq<Event>, e1: Seq<Event>, lo: int, lo2: int)
+    requires #[trigger] evf(e0, e1, lo), 0 <= lo2 <= lo,
+    ensures #[trigger] evf(e0, e1, lo2)
+{}
 /// what every grammar function guarantees: same input, cursor only moves forward, state stays
-/// well formed, recorded errors are never lost
+/// well formed, recorded errors are never lost, and the event slots that existed before are kept
+/// (every marker that was valid stays valid)
 pub open spec fn mono(a: Parser, b: Parser) -> bool {
-    b.wf() && b.inp == a.inp && b.pos >= a.pos && (a.has_err() ==> b.has_err())
+    b.wf() && b.inp == a.inp && b.pos >= a.pos && (a.has_err() ==> b.has_err()) && evf(a.events@, b.events@, a.events@.len() as int)
+}
+/// the same for a function that was handed the pending marker at `lo` (it may complete or abandon it)
+pub open spec fn mono_from(a: Parser, b: Parser, lo: int) -> bool {
+    b.wf() && b.inp == a.inp && b.pos >= a.pos && (a.has_err() ==> b.has_err()) && evf(a.events@, b.events@, lo)
 }
 pub open spec fn unmoved(a: Parser, b: Parser) -> bool {
     b.wf() && b.inp == a.inp && b.pos == a.pos && (a.has_err() ==> b.has_err())
